@@ -508,6 +508,7 @@ class _ObjScrCellsMap:
             detect columns which corresspond to 'range' attributes.
         """
         self.columns_map = []
+        self.defaults_factories = []
         for attr_rrules in self.attrs_rules:
             if attr_rrules.column_name == "*":
                 # this is 'range' attribute. It's value is taken from several cells.
